@@ -233,7 +233,7 @@ static void solve_case (int p, int q, const uint64_t *rows /* p rows, bit j = co
 	/* ONE control block per worker, reused by every solve (never re-zeroed): the solver must not depend on what an
 	 * earlier call left in its scratch fields (nb_tmp_symbols, tmp_tab_symbols), as a long-lived session would expose */
 	static of_linear_binary_code_cb_t cb;
-	static void *tmp_static[256];
+	static void *tmp_static[4096];
 	of_mod2dense *m = of_mod2dense_allocate ((UINT32) p, (UINT32) q);
 	void **ct = calloc ((size_t) p, sizeof (void *)), **vt = calloc ((size_t) q, sizeof (void *)), **tmp = tmp_static;
 	unsigned char *x = malloc ((size_t) q * len);
@@ -249,7 +249,9 @@ static void solve_case (int p, int q, const uint64_t *rows /* p rows, bit j = co
 		snprintf (prev, sizeof prev, "%.190s", desc);
 	}
 	cb.encoding_symbol_length = (UINT32) len; cb.tmp_tab_symbols = tmp;
-	for (j = 0; j < q; j++) for (b = 0; b < len; b++) x[j * len + b] = (unsigned char) (b == 0 ? (q <= 8 ? (1u << j) : (unsigned) (j + 1)) : (vf_mix64 ((uint64_t) j * 977 + (uint64_t) b) >> 9));
+	/* nullrhs = 2: all variables equal, so that every equation of even weight has a null sum and is handed over without
+	 * a constant term (with distinct powers of two no non-empty equation ever sums to zero) */
+	for (j = 0; j < q; j++) for (b = 0; b < len; b++) x[j * len + b] = (unsigned char) (nullrhs == 2 ? (b == 0 ? 1 : (vf_mix64 ((uint64_t) b) >> 9)) : b == 0 ? (q <= 8 ? (1u << j) : (unsigned) (j + 1)) : (vf_mix64 ((uint64_t) j * 977 + (uint64_t) b) >> 9));
 	for (i = 0; i < p; i++) {
 		unsigned char *rhs = calloc (1, (size_t) len);
 		int nz = 0;
@@ -292,7 +294,7 @@ static void solver_item (long it, void *arg)
 		for (x = 0; x < tot; x++) {
 			uint64_t rows[24]; int i; char d[128];
 			for (i = 0; i < p; i++) rows[i] = (x >> (i * q)) & (((uint64_t) 1 << q) - 1);
-			for (li = 0; li < (p >= 9 ? NLENS_ALL : NLENS_SMALL); li++) for (nr = 0; nr < 2; nr++) {
+			for (li = 0; li < (p >= 9 ? NLENS_ALL : NLENS_SMALL); li++) for (nr = 0; nr < 3; nr++) {
 				if (!g_solver_thorough && li != (int) (x % (p >= 9 ? NLENS_ALL : NLENS_SMALL)) && tot > 70000) continue;
 				snprintf (d, sizeof d, "solver p=%d q=%d matrix=0x%llx len=%d nullrhs=%d", p, q, (unsigned long long) x, LENS[li], nr);
 				solve_case (p, q, rows, NULL, LENS[li], nr, d);
@@ -307,12 +309,195 @@ static void solver_item (long it, void *arg)
 			if (!g_solver_thorough && (x & 3)) { bm_free (M); continue; }
 			for (i = 0; i < 66; i++) bm_set (M, i, i);
 			for (i = 0; i < 4; i++) for (j = 0; j < 4; j++) { if ((x >> (i * 4 + j)) & 1) bm_set (M, off + i, off + j); else bm_clr (M, off + i, off + j); }
-			snprintf (d, sizeof d, "solver embedded off=%d block=0x%x len=9 nullrhs=%d", off, x, x & 1);
-			solve_case (66, 66, NULL, M, 9, x & 1, d);
+			snprintf (d, sizeof d, "solver embedded off=%d block=0x%x len=9 nullrhs=%d", off, x, x % 3);
+			solve_case (66, 66, NULL, M, 9, x % 3, d);
 			bm_free (M);
 			vf_stat_add (st_states, 1);
 		}
 	}
+}
+
+
+/* ============================================================ big mode: large matrices, long symbols, many unknowns
+ * The searches above close a small alphabet on matrices of a few rows; what depends on magnitude (more than two words
+ * per row, more than 255 rows, 8-way and wider unrolling over long symbols, dozens of unknowns) is enumerated here as
+ * a structured family: shape x content pattern, each followed by ONE fixed script of every dense operation, and
+ * solver systems (structured matrices x sizes x symbol lengths) with known solutions. */
+typedef struct { of_mod2dense *m; bitmat *M; int R, C; } bd_t;
+static unsigned bhsh (unsigned a, unsigned b) { unsigned x = a * 2654435761u ^ (b + 0x9E3779B9u) * 40503u; x ^= x >> 15; x *= 2246822519u; x ^= x >> 13; return x; }
+static int bmember (int pat, int R, int C, int i, int j)
+{
+	switch (pat) {
+	case 0: return R >= C ? (i % C == j) : (j % R == i);
+	case 1: return i == 0 || j == 0 || i == R - 1 || j == C - 1;
+	case 2: return (i % 31) == (j % 33);
+	case 3: return 1;
+	case 4: return bhsh ((unsigned) i, (unsigned) j) & 1;
+	default: return (j % 32) == 31 || (j % 32) == 0 || j == C - 1;	/* word boundaries */
+	}
+}
+static void bd_new (bd_t *a, int R, int C) { a->R = R; a->C = C; a->m = of_mod2dense_allocate ((UINT32) R, (UINT32) C); a->M = bm_new (R, C); }
+static void bd_free (bd_t *a) { of_mod2dense_free (a->m); bm_free (a->M); }
+static void bd_put (bd_t *a, int i, int j, int v) { if (v) bm_set (a->M, i, j); else bm_clr (a->M, i, j); }
+static const char *g_bstep = "";
+static void bviol (const char *kind) { char sig[200]; snprintf (sig, sizeof sig, "big|after=%s|kind=%s", g_bstep, kind); dviol (sig); }
+static int bd_check (bd_t *a, const char *after)
+{
+	int i, j, ig;
+	long ones = 0;
+	int *cw = calloc ((size_t) a->C, sizeof (int));
+	g_bstep = after;
+	vf_heartbeat ();
+	for (i = 0; i < a->R; i++) {
+		int wt = 0;
+		for (j = 0; j < a->C; j++) {
+			int g = (int) of_mod2dense_get (a->m, (UINT32) i, (UINT32) j);
+			if (g != bm_get (a->M, i, j)) { bviol ("cell-differs-from-model"); free (cw); return 0; }
+			wt += g; cw[j] += g;
+		}
+		ones += wt;
+		if ((int) of_mod2dense_row_weight (a->m, (UINT32) i) != wt) { bviol ("row_weight-wrong"); free (cw); return 0; }
+		if ((of_mod2dense_row_is_empty (a->m, (UINT32) i) != 0) != (wt == 0)) { bviol ("row_is_empty-wrong"); free (cw); return 0; }
+		if ((int) of_hweight_array ((UINT32 *) a->m->row[i], a->C) != wt) { bviol ("hweight_array-of-row-wrong"); free (cw); return 0; }
+		for (ig = 0; ig <= a->C - 1; ig += 32) {
+			int wi = 0;
+			if (a->C > 600 && (ig / 32) % 5 && ig + 96 < a->C) continue;
+			for (j = ig; j < a->C; j++) wi += bm_get (a->M, i, j);
+			if ((int) of_mod2dense_row_weight_ignore_first (a->m, (UINT32) i, (UINT32) ig) != wi) { bviol ("row_weight_ignore_first-wrong"); free (cw); return 0; }
+		}
+	}
+	for (j = 0; j < a->C; j++) if ((int) of_mod2dense_col_weight (a->m, (UINT32) j) != cw[j]) { bviol ("col_weight-wrong"); free (cw); return 0; }
+	free (cw);
+	if (of_mod2dense_density (a->m) != (double) ones / ((double) a->R * a->C)) { bviol ("density-wrong"); return 0; }
+	return 1;
+}
+static void bd_dirty (bd_t *b) { int i, j; for (i = 0; i < b->R; i++) for (j = 0; j < b->C; j++) if (((i * 3 + j) % 5) == 0) { of_mod2dense_set (b->m, (UINT32) i, (UINT32) j, 1); bd_put (b, i, j, 1); } }
+static void bd_zero_model (bd_t *b) { memset (b->M->w, 0, sizeof (uint64_t) * (size_t) b->M->rows * b->M->W); }
+
+static const struct { int R, C; } BSH[] = {{3, 200}, {70, 70}, {300, 65}, {260, 130}, {2, 1000}, {1000, 2}, {65, 1}, {9, 257}, {40, 96}, {33, 33}, {5, 4097}, {600, 40}};
+#define NBSH ((int) (sizeof BSH / sizeof BSH[0]))
+#define NBPAT 6
+static void big_ops_script (int si, int pat)
+{
+	int R = BSH[si].R, C = BSH[si].C, i, j, v;
+	bd_t A, B;
+	snprintf (g_desc, sizeof g_desc, "bigops shape=%dx%d pattern=%d", R, C, pat);
+	memcpy (vf_slot (), g_desc, sizeof g_desc);
+	bd_new (&A, R, C);
+	if (!bd_check (&A, "allocate")) goto out;
+	for (i = 0; i < R; i++) for (j = 0; j < C; j++) if (bmember (pat, R, C, i, j)) { if (of_mod2dense_set (A.m, (UINT32) i, (UINT32) j, 1) != 0) { g_bstep = "set"; bviol ("in-range-set-returned-error"); } bd_put (&A, i, j, 1); }
+	vf_stat_add (st_trans, (long) R * C);
+	if (!bd_check (&A, "set")) goto out;
+	for (i = 0; i < R; i++) for (j = (i % 3); j < C; j += 3) { UINT32 b = of_mod2dense_flip (A.m, (UINT32) i, (UINT32) j); bd_put (&A, i, j, !bm_get (A.M, i, j)); if ((int) b != bm_get (A.M, i, j)) { g_bstep = "flip"; bviol ("flip-return-value-wrong"); goto out; } }
+	if (!bd_check (&A, "flip")) goto out;
+	for (i = 0; i < R; i++) for (j = (i % 7); j < C; j += 7) { of_mod2dense_set (A.m, (UINT32) i, (UINT32) j, 0); bd_put (&A, i, j, 0); }
+	if (!bd_check (&A, "set0")) goto out;
+	/* xor_rows: neighbours, first<->last, across the 255/256 border */
+	for (v = 0; v < 6 && R > 1; v++) {
+		int from = v == 0 ? 0 : v == 1 ? R - 1 : v == 2 ? R / 2 : v == 3 ? (R > 256 ? 255 : 1 % R) : v == 4 ? (R > 257 ? 257 : R - 1) : R / 3;
+		int to = v == 0 ? R - 1 : v == 1 ? 0 : v == 2 ? (R / 2 + 1) % R : v == 3 ? (R > 256 ? 256 : 0) : v == 4 ? 0 : (R / 3 + R / 2) % R;
+		if (from == to) continue;
+		of_mod2dense_xor_rows (A.m, (UINT16) from, (UINT16) to);
+		for (j = 0; j < C; j++) if (bm_get (A.M, from, j)) bd_put (&A, to, j, !bm_get (A.M, to, j));
+		vf_stat_add (st_trans, 1);
+	}
+	if (!bd_check (&A, "xor_rows")) goto out;
+	/* copy into used matrices: same size, and larger in both dimensions */
+	for (v = 0; v < 2; v++) {
+		bd_new (&B, R + v, C + 40 * v);
+		bd_dirty (&B);
+		of_mod2dense_copy (A.m, B.m); bd_zero_model (&B);
+		for (i = 0; i < R; i++) for (j = 0; j < C; j++) bd_put (&B, i, j, bm_get (A.M, i, j));
+		vf_stat_add (st_trans, 1);
+		if (!bd_check (&B, v ? "copy-into-larger" : "copy")) { bd_free (&B); goto out; }
+		bd_free (&B);
+	}
+	/* copyrows: reversed and repeating row vectors into a used matrix with more columns */
+	for (v = 0; v < 2; v++) {
+		UINT32 *rows = malloc (sizeof (UINT32) * (size_t) (R + 2));
+		bd_new (&B, R + 2 * v, C + 33 * v);
+		bd_dirty (&B);
+		for (i = 0; i < B.R; i++) rows[i] = (UINT32) (v ? (i * 7 + 3) % R : R - 1 - i);
+		of_mod2dense_copyrows (A.m, B.m, rows); bd_zero_model (&B);
+		for (i = 0; i < B.R; i++) for (j = 0; j < C; j++) bd_put (&B, i, j, bm_get (A.M, (int) rows[i], j));
+		free (rows);
+		vf_stat_add (st_trans, 1);
+		if (!bd_check (&B, "copyrows")) { bd_free (&B); goto out; }
+		bd_free (&B);
+	}
+	/* copycols: reversed / repeating / shifted column vectors into a used matrix with the same number of rows */
+	for (v = 0; v < 3; v++) {
+		int C2 = v == 0 ? C : v == 1 ? C + 7 : (C > 1 ? C - 1 : C);
+		UINT32 *cols = malloc (sizeof (UINT32) * (size_t) C2);
+		bd_new (&B, R, C2);
+		bd_dirty (&B);
+		for (j = 0; j < C2; j++) cols[j] = (UINT32) (v == 0 ? C - 1 - j : v == 1 ? (j * 5 + 2) % C : (j + 1) % C);
+		of_mod2dense_copycols (A.m, B.m, cols);
+		for (i = 0; i < R; i++) for (j = 0; j < C2; j++) bd_put (&B, i, j, bm_get (A.M, i, (int) cols[j]));
+		free (cols);
+		vf_stat_add (st_trans, 1);
+		if (!bd_check (&B, "copycols")) { bd_free (&B); goto out; }
+		bd_free (&B);
+	}
+	of_mod2dense_clear (A.m); bd_zero_model (&A);
+	if (!bd_check (&A, "clear")) goto out;
+out:
+	bd_free (&A);
+	vf_stat_add (st_states, 1);
+}
+
+/* solver families: family x q x (p - q) x symbol length x NULL right-hand sides */
+static const int BQ[] = {9, 12, 16, 31, 32, 33, 40, 63, 64, 65, 100, 130};
+static const int BLEN[] = {1, 4, 13, 32, 33, 64, 100, 129, 1000};
+#define NBQ ((int) (sizeof BQ / sizeof BQ[0]))
+#define NBLEN ((int) (sizeof BLEN / sizeof BLEN[0]))
+#define NBFAM 12
+static const char *BFN[NBFAM] = {"identity", "lower-all-ones", "upper-all-ones", "staircase", "staircase+dense-first-column", "reversed-identity", "hashed-half", "hashed-eighth+identity", "duplicate-column", "zero-column", "lower-all-ones-rows-reversed", "dense-last-row-only"};
+static bitmat *big_family (int fam, int p, int q)
+{
+	bitmat *M = bm_new (p, q);
+	int i, j;
+	for (i = 0; i < p; i++) for (j = 0; j < q; j++) {
+		int ii = i < q ? i : (i * 7) % q;	/* the p - q extra rows repeat earlier ones */
+		int b;
+		switch (fam) {
+		case 0: b = ii == j; break;
+		case 1: b = j <= ii; break;
+		case 2: b = j >= ii; break;
+		case 3: b = j == ii || j + 1 == ii; break;
+		case 4: b = j == ii || j + 1 == ii || j == 0; break;
+		case 5: b = j == q - 1 - ii; break;
+		case 6: b = (bhsh ((unsigned) ii, (unsigned) j) >> 3) & 1; break;
+		case 7: b = j == ii || (bhsh ((unsigned) ii, (unsigned) j) % 8) == 0; break;
+		case 8: b = j <= ii; break;	/* the caller then makes the last column a copy of the first */
+		case 9: b = j == q / 2 ? 0 : (j <= ii); break;
+		case 10: b = j <= (q - 1 - ii); break;
+		default: b = (ii == q - 1) ? 1 : (ii == j); break;
+		}
+		if (b) bm_set (M, i, j);
+	}
+	return M;
+}
+static void big_solver_item (int fam, int qi, int extra)
+{
+	int q = BQ[qi], p = q + extra, li, nr;
+	bitmat *M = big_family (fam, p, q);
+	if (fam == 8) { int i; for (i = 0; i < p; i++) { if (bm_get (M, i, 0)) bm_set (M, i, q - 1); else bm_clr (M, i, q - 1); } }	/* last column := first column */
+	for (li = 0; li < NBLEN; li++) for (nr = 0; nr < 3; nr++) {
+		char d[160];
+		if (q > 65 && BLEN[li] == 1000 && (fam % 3)) continue;
+		snprintf (d, sizeof d, "bigsolver fam=%d q=%d extra=%d len=%d nullrhs=%d", fam, q, extra, BLEN[li], nr);
+		solve_case (p, q, NULL, M, BLEN[li], nr, d);
+	}
+	bm_free (M);
+	vf_stat_add (st_states, 1);
+}
+static void big_item (long it, void *arg)
+{
+	(void) arg;
+	vf_slot_set_prop ("C18");
+	if (it < NBSH * NBPAT) big_ops_script ((int) (it / NBPAT), (int) (it % NBPAT));
+	else { long x = it - NBSH * NBPAT; big_solver_item ((int) (x / (NBQ * 2)), (int) ((x / 2) % NBQ), (x & 1) ? 3 : 0); }
 }
 
 static void replay_one (const char *cs);
@@ -353,6 +538,17 @@ static void replay_one (const char *cs)
 		if (sscanf (cs, "solver p=%d q=%d matrix=0x%llx len=%d nullrhs=%d", &p, &q, &x, &len, &nr) != 5) return;
 		for (i = 0; i < p; i++) rows[i] = (x >> (i * q)) & (((uint64_t) 1 << q) - 1);
 		solve_case (p, q, rows, NULL, len, nr, cs);
+	} else if (!strncmp (cs, "bigops ", 7)) {
+		int R, C, pat, si;
+		if (sscanf (cs, "bigops shape=%dx%d pattern=%d", &R, &C, &pat) != 3) return;
+		for (si = 0; si < NBSH; si++) if (BSH[si].R == R && BSH[si].C == C) big_ops_script (si, pat);
+	} else if (!strncmp (cs, "bigsolver ", 10)) {
+		int fam, q, extra, len, nr; bitmat *M;
+		if (sscanf (cs, "bigsolver fam=%d q=%d extra=%d len=%d nullrhs=%d", &fam, &q, &extra, &len, &nr) != 5) return;
+		M = big_family (fam, q + extra, q);
+		if (fam == 8) { int i; for (i = 0; i < q + extra; i++) { if (bm_get (M, i, 0)) bm_set (M, i, q - 1); else bm_clr (M, i, q - 1); } }
+		solve_case (q + extra, q, NULL, M, len, nr, cs);
+		bm_free (M);
 	} else if (!strncmp (cs, "solver embedded", 15)) {
 		int off, x, nr, i, j; bitmat *M = bm_new (66, 66);
 		if (sscanf (cs, "solver embedded off=%d block=0x%x len=9 nullrhs=%d", &off, &x, &nr) != 3) return;
@@ -384,6 +580,10 @@ int main (int argc, char **argv)
 		}
 		vf_pool_run (NDCF, ops_item, NULL, 0);
 		vf_sample ("ops dims=2x33,2x33: alphabet = flip/set at cells (row 0/last) x (col 0,30,31,32,last), clear, copy, copyrows (all index vectors), copycols (5 column maps), xor_rows (all ordered row pairs); after every step all cells, weights, emptiness, density compared");
+	} else if (!strcmp (mode, "big")) {
+		vf_pool_run ((long) NBSH * NBPAT + (long) NBFAM * NBQ * 2, big_item, NULL, 0);
+		vf_outcome ("big_ops_scripts", NBSH * NBPAT); vf_outcome ("big_solver_systems", NBFAM * NBQ * 2);
+		vf_sample ("bigsolver fam=1 (lower-all-ones) q=65 extra=3 len=129: status OK, 65 variables equal the known solution");
 	} else if (!strcmp (mode, "popcnt")) {
 		vf_pool_run (256, pop_item, NULL, 0);
 		vf_sample ("popcnt: w=0x00000010 -> of_hweight32=%u of_hweight32_table=%u of_hweight32_naive=%u (reference 1)", of_hweight32 (0x10), of_hweight32_table (0x10), of_hweight32_naive (0x10));
